@@ -204,6 +204,15 @@ def _loose(v):
 
 
 def _normalise(res, cs=None):
+    if cs is not None and cs['op'] == 's_searchsorted':
+        # the dtype of the reported positions / labels is not part of the statement (labels next to a NaN fill come back as floats)
+        res = dict(res)
+        if res.get('k') == 'array':
+            res['vals'] = [_canon(v) for v in res['vals']]
+            res['dt'] = ['any', 0]
+        elif res.get('k') == 'elem':
+            res['v'] = _canon(res['v'])
+        return res
     if cs is not None and cs['op'] in ('s_map', 'f_map'):
         # the dtype of a mapped result is inferred from its values: not part of the statement (one missing marker, whole floats as ints)
         res = dict(res)
